@@ -184,7 +184,7 @@ func init() {
 }
 
 // name families that occur as YAML keys / needs entries / step ids in the generated shapes
-var reYAMLName = regexp.MustCompile(`(?i)\b(job\d+|s\d+(j\d+)?|din\d|cin\d|tok\d|out\d|wout\d|os|ver|cfg|extra|fetch-depth|ref|token|plat|alpha|beta|gamma|delta)\b`)
+var reYAMLName = regexp.MustCompile(`(?i)\b(job\d+|s\d+(j\d+)?|din\d|cin\d|tok\d|out\d|wout\d|os|ver|cfg|extra|fetch-depth|ref|token|plat|alpha|beta|gamma|delta|zeta|az|z)\b`)
 var reIdent = regexp.MustCompile(`[A-Za-z_][A-Za-z0-9_-]*`)
 var reJSONKey = regexp.MustCompile(`"([A-Za-z_]+)"\s*:`)
 
@@ -195,7 +195,7 @@ type respeller struct {
 
 func (rs *respeller) spell(s, site string) string {
 	var out string
-	switch rapid.IntRange(0, 3).Draw(rs.t, "respell") {
+	switch rapid.IntRange(0, 5).Draw(rs.t, "respell") {
 	case 0:
 		out = strings.ToUpper(s)
 	case 1:
@@ -204,6 +204,23 @@ func (rs *respeller) spell(s, site string) string {
 		var b strings.Builder
 		for i, r := range s {
 			if i%2 == 0 {
+				b.WriteString(strings.ToUpper(string(r)))
+			} else {
+				b.WriteString(strings.ToLower(string(r)))
+			}
+		}
+		out = b.String()
+	case 4: // exactly one letter in upper case (a fast path looking for "any capital" sees only this one)
+		low := []rune(strings.ToLower(s))
+		if len(low) > 0 {
+			i := rapid.IntRange(0, len(low)-1).Draw(rs.t, "capital-at")
+			low[i] = []rune(strings.ToUpper(string(low[i])))[0]
+		}
+		out = string(low)
+	case 5: // every letter independently
+		var b strings.Builder
+		for _, r := range s {
+			if rapid.Bool().Draw(rs.t, "up") {
 				b.WriteString(strings.ToUpper(string(r)))
 			} else {
 				b.WriteString(strings.ToLower(string(r)))
@@ -328,7 +345,7 @@ func (rs *respeller) yaml(seg string) string {
 
 func TestC08(t *testing.T) {
 	hx.Main(t, "C08", func(r *hx.Run) {
-		r.Rule = "workflow shapes of the C05 generator (jobs, needs, step ids, matrix keys, inputs, secrets, outputs with defined and undefined references in dot and ['x'] form) extended with action `with:` keys, runner labels taken from matrix rows (runs-on: ${{ matrix.os }} with unknown labels among the row values), built-in function calls and fromJSON('{...}') literals with property access; every name occurrence (YAML key of a case-insensitive mapping, id: value, needs: entry, expression identifier / property / function name / ['name'] literal, JSON literal key) is independently re-spelled (upper / lower / alternating / unchanged). A second family defines the names in other files (inputs / outputs of a local action, inputs / secrets / outputs of a local reusable workflow, linted alone and with the callee in the run): definition and uses are re-spelled independently. Oracle: the multiset of (line, column, kind, case-folded message) is identical for both spellings. Non-trivial = at least one occurrence re-spelled and the workflow has >= 1 diagnostic or >= 3 name uses; distinct = pair of texts. Negative control: TRUE/FALSE/NULL must become undefined variables."
+		r.Rule = "workflow shapes of the C05 generator (jobs, needs, step ids, matrix keys, inputs, secrets, outputs with defined and undefined references in dot and ['x'] form) extended with action `with:` keys, runner labels taken from matrix rows (runs-on: ${{ matrix.os }} with unknown labels among the row values), built-in function calls and fromJSON('{...}') literals with property access; every name occurrence (YAML key of a case-insensitive mapping, id: value, needs: entry, expression identifier / property / function name / ['name'] literal, JSON literal key) is independently re-spelled (upper / lower / alternating / one capital letter / every letter at random / unchanged). A second family defines the names in other files (inputs / outputs of a local action, inputs / secrets / outputs of a local reusable workflow, linted alone and with the callee in the run): definition and uses are re-spelled independently. Oracle: the multiset of (line, column, kind, case-folded message) is identical for both spellings. Non-trivial = at least one occurrence re-spelled and the workflow has >= 1 diagnostic or >= 3 name uses; distinct = pair of texts. Negative control: TRUE/FALSE/NULL must become undefined variables."
 		r.Assumptions = []string{"never re-spelled: keywords true/false/null, string literal contents that are not ['name'] indexes or JSON keys, permission scopes, event names, action specs, shell names, runner labels, env variable names"}
 		sites := map[string]int64{}
 		r.Check(t, "respell", hx.N(4000, 80000), func(rt *rapid.T) {
@@ -369,6 +386,9 @@ func TestC08(t *testing.T) {
 					y.ln("            beta: x")
 					y.ln("          - alpha: 2")
 					y.ln("            beta: y")
+					y.ln("            zeta: 1")
+					y.ln("            az: 1")
+					y.ln("            z: 1")
 					y.ln("            delta:")
 					y.ln("              gamma: 1")
 					if g.b("objinclude") {
@@ -385,7 +405,7 @@ func TestC08(t *testing.T) {
 						y.ln("              alpha: 1")
 					}
 					y.ln("    steps:")
-					for _, e := range []string{"matrix.plat.alpha", "matrix.plat.beta == 'x'", "matrix.plat.delta.gamma", "matrix.extra.gamma", "matrix.plat.nosuch", "matrix.plat['alpha']", "toJSON(matrix.plat.delta)"} {
+					for _, e := range []string{"matrix.plat.alpha", "matrix.plat.beta == 'x'", "matrix.plat.delta.gamma", "matrix.extra.gamma", "matrix.plat.nosuch", "matrix.plat['alpha']", "matrix.plat.zeta", "matrix.plat.az", "matrix.plat.z", "matrix.plat.zeta.nosuch", "toJSON(matrix.plat.delta)"} {
 						if g.b("objuse") {
 							y.ln("      - run: echo")
 							y.ln("        env:")
